@@ -26,6 +26,21 @@ CHECKS = {
     "C04": ("model_checking", "DESIGN.md 5/C04", DEV_TECH, DEV_NOTE,
             "Pitch/channel arithmetic, unit steps, saturation, pair reset and defaults judged by TLC on tours over "
             "base notes x octaves -12..12 x semitones -13..13, channels x offsets, and all orders of held action pairs."),
+    "C05": ("model_checking", "DESIGN.md 5/C05", DEV_TECH + "; configurations rendered as TOML and parsed by the real config.ParseData",
+            DEV_NOTE, "WellFormed is evaluated by TLC on the raw bytes of every step of every recorded execution: key tours, "
+            "boundary configurations (default channel, velocity, offsets, controller numbers at and beyond their ranges; "
+            "those the parser accepts are run with panic on channel 1 and 16 and axis sweeps), axis sweeps of C06-C08."),
+    "C06": ("model_checking", "DESIGN.md 5/C06", DEV_TECH + "; exact rational transfer function in TLA+ (integers only) as the oracle for complete sweeps of 8-bit axes",
+            DEV_NOTE + " Float rounding of the implementation is judged only through the +-1 tolerance; exactness only at end stops, dead-zone and centre.",
+            "The transfer function is specified in exact rational arithmetic; TLC judges every raw value of signed and unsigned "
+            "8-bit axes (up, down, random order) and edge/sampled values of 16-bit axes over the option lattice "
+            "(dead-zone x source x flip x centre x cc/bidirectional/pitch) against it: within one step, end stops exact, rest exact, monotone."),
+    "C07": ("model_checking", "DESIGN.md 5/C07", DEV_TECH, DEV_NOTE,
+            "Exclusive / SideMatches / LearningGate judged by TLC on tours over all position sequences of two small bidirectional "
+            "axes with cc-learning pressed/released anywhere, and on seeded random sequences on 8/16-bit axes."),
+    "C08": ("model_checking", "DESIGN.md 5/C08", DEV_TECH + "; configurations rendered as TOML and parsed by the real config.ParseData",
+            DEV_NOTE, "On/Off/Exclusive/OnlyConfigured/Pinned judged by TLC on tours over all position sequences of hat and stick "
+            "axes (signed, unsigned, flipped, without negative note) with octave/channel actions between, and seeded random sequences."),
     "C13": ("model_checking", "DESIGN.md 5/C13", DEV_TECH, DEV_NOTE,
             "Panic output and neutrality judged by TLC with panic taken in every state of the bounded models."),
     "C14": ("model_checking", "DESIGN.md 5/C14", DEV_TECH, DEV_NOTE,
